@@ -354,6 +354,12 @@ func runRelease(k int, cause string, s relShape) {
 					asT.fail("dead-target-stays-in-relations", "after %s terminated (%s) the relation set still has consumers %v for its %T %v", subj.pid, cause, c, tg, tg)
 				}
 			}
+			// the consumers' own side of the relation state
+			for _, o := range observers {
+				if h := holds(o, st.targets()); len(h) > 0 && !o.isDead() {
+					asT.fail("dead-target-stays-in-relations", "after %s terminated (%s) observer %s is still related to it: %v", subj.pid, cause, o.pid, h)
+				}
+			}
 		}
 		if s.AsRequester {
 			opsObserved.Add(1)
